@@ -577,6 +577,8 @@ func runCase(r *hx.Run, c hx.Case) {
 		runMailClient(r, c)
 	case "cc":
 		runCC(r, c)
+	case "aa":
+		runAA(r, c)
 	default:
 		panic("unknown case kind " + c.Kind)
 	}
@@ -742,6 +744,97 @@ func runCC(r *hx.Run, c hx.Case) {
 	}
 }
 
+// two and three Auth calls on ONE smtp.Client (one connection): the first fails after the AUTH command was sent (535, wrong
+// password, malformed / extra challenge -> abort with "*" and QUIT), then Auth is called again (same or another mechanism);
+// the server answers the QUIT of the aborted exchange with 221 (the client closes: the next AUTH line is still handed to
+// the logger before the write fails) or with 250 (the connection stays usable).  Oracle only; every logger.
+// case: aa <mech1> <mut1> <at1> <mech2> <quitcode> <n> <user> <secret>
+func runAA(r *hx.Run, c hx.Case) {
+	mech1, mut1 := c.Args[0], c.Args[1]
+	at1, _ := strconv.Atoi(c.Args[2])
+	mech2 := c.Args[3]
+	quit := c.Args[4]
+	n, _ := strconv.Atoi(c.Args[5])
+	user, secret := string(hx.UnHex(c.Args[6])), string(hx.UnHex(c.Args[7]))
+	r.AddOracleOnly(c, true)
+	r.Dist["multi-auth:"+mech1+">"+mech2]++
+	mk := func(mech, mut string, at int) *scenario {
+		sc := &scenario{mech: mech, mut: mut, at: at, user: user, secret: secret, hello: "e"}
+		if mech == "sha256plus" {
+			sc.tlsState = saslx.TLSState(tls.VersionTLS13)
+		}
+		return sc
+	}
+	one := func(lg log.Logger) map[string][]byte {
+		var st *scripted
+		sess, err := saslx.NewSessionHello("localhost", []string{capsLine}, func(line string) string {
+			if line == "QUIT" && quit == "250" {
+				return "250 2.0.0 not yet\r\n"
+			}
+			rp, ok := st.onLine(line)
+			if !ok {
+				return ""
+			}
+			if rp.raw() != "" {
+				return rp.raw()
+			}
+			return saslx.FormatReply(rp.code, rp.text)
+		}, "e")
+		if err != nil {
+			return nil
+		}
+		cl := sess.Client
+		cl.SetLogger(lg)
+		cl.SetDebugLog(true)
+		nd := map[string][]byte{}
+		for i := 0; i < n; i++ {
+			sc := mk(mech2, "none", 0)
+			if i == 0 || (n == 3 && i == 1) {
+				sc = mk(mech1, mut1, at1)
+			}
+			st = &scripted{ref: newRef(sc), sc: sc}
+			h := &hookAuth{inner: mkAuth(sc), at: -2}
+			_ = cl.Auth(h)
+			for k, v := range needles(sc, sess.Lines) {
+				nd[k] = v
+			}
+			for j, rp := range h.resps {
+				if len(rp) >= 6 {
+					nd[fmt.Sprintf("auth%d-sasl-response-%d", i, j)] = rp
+					nd[fmt.Sprintf("auth%d-sasl-response-%d-base64", i, j)] = []byte(base64.StdEncoding.EncodeToString(rp))
+				}
+			}
+		}
+		_ = sess.Conn.Close()
+		return nd
+	}
+	where := "-second-auth-on-client"
+	cap := &capLogger{}
+	if nd := one(cap); nd != nil {
+		for _, rec := range cap.recs {
+			scan(r, c.ID, "capture"+where, rec, nd)
+		}
+		for _, rec := range cap.Late() {
+			scan(r, c.ID, "retaining-logger"+where, rec, nd)
+		}
+	}
+	bl := &batchLogger{n: 3}
+	if nd := one(bl); nd != nil {
+		bl.Flush()
+		for _, rec := range bl.out {
+			scan(r, c.ID, "batching-logger"+where, rec, nd)
+		}
+	}
+	var sb, jb bytes.Buffer
+	if nd := one(log.New(&sb, log.LevelDebug)); nd != nil {
+		scan(r, c.ID, "stdlog"+where, sb.Bytes(), nd)
+	}
+	if nd := one(log.NewJSON(&jb, log.LevelDebug)); nd != nil {
+		scan(r, c.ID, "jsonlog"+where, jb.Bytes(), nd)
+		scan(r, c.ID, "jsonlog"+where, jsonMsgs(jb.Bytes()), nd)
+	}
+}
+
 // mail.Client level: option plumbing (WithLogger, WithDebugLog, WithLogAuthData); oracle only
 // case: mc <mech> <mut> <at> <lad> <user> <secret>
 func runMailClient(r *hx.Run, c hx.Case) {
@@ -860,6 +953,25 @@ func Run(r *hx.Run, replay []hx.Case) {
 					for _, h := range []string{"e", "i"} {
 						runCase(r, hx.Case{ID: r.NewID(), Kind: "cc", Args: []string{m, method, strconv.Itoa(at), h,
 							hx.Hex([]byte("user")), hx.Hex([]byte(secretOf(r, at+1+round)))}})
+					}
+				}
+			}
+		}
+	}
+	// two / three Auth calls on one smtp.Client, the first one(s) failing after the AUTH command was sent
+	for round := 0; round < ccRounds && !r.Expired(); round++ {
+		for _, m := range mechs {
+			type fm struct {
+				mut string
+				at  int
+			}
+			for _, f := range []fm{{"wrongpw", 0}, {"f535", 0}, {"f535", steps[m] - 1}, {"malformed", 0}, {"extra", 0}} {
+				for _, m2 := range []string{m, "plain"} {
+					for _, q := range []string{"221", "250"} {
+						for _, n := range []string{"2", "3"} {
+							runCase(r, hx.Case{ID: r.NewID(), Kind: "aa", Args: []string{m, f.mut, strconv.Itoa(f.at), m2, q, n,
+								hx.Hex([]byte("user")), hx.Hex([]byte(secretOf(r, f.at+round)))}})
+						}
 					}
 				}
 			}
